@@ -15,6 +15,7 @@
 From Coq Require Import List NArith ZArith.
 From Verif Require Import c01vm.Syntax c01vm.Code c01vm.VM c01vm.Den c01vm.Compile c01vm.Natives c01vm.Lemmas c01vm.Correct c01vm.Peep.
 Import ListNotations.
+From Verif Require c01vm2.Syntax c01vm2.Code c01vm2.VM c01vm2.Den c01vm2.Compile c01vm2.Natives c01vm2.Lemmas c01vm2.Correct.
 
 (* For EVERY program q of F that compiles (all variables and labels bound), EVERY input v and EVERY
    instance of the natives there is a fuel with which the VM, started by env.execute on the code finally
@@ -61,4 +62,44 @@ Example C01vm_nonvacuous :
   option_map (fun c => run cnat c 300 (init v)) (compile q)
     = Some ([VArr [VNum 3; VNum 1; VNum 4; VNum 1]], Error (VE (EV v))) /\
   den cnat q [] v = ([VArr [VNum 3; VNum 1; VNum 4; VNum 1]], Some (XErr (EVal v))).
+Proof. vm_compute. split; reflexivity. Qed.
+
+(* ---- step 1 of the extension (coq/c01vm2): operands that need closures ----
+   Fragment F1 = F with the operands of binary operators arbitrary queries of F1 ($x + 1, nested
+   expressions, generators in operands: (1,2) + (10,20)).  compileCallInternal compiles an operand either
+   inline (empty body: load v; a single instruction that owns no variable: push c / load v; X) or as a function
+   definition (jump over it; opscope id nvars 0; body; opret) called through  load v; pushpc; callpc.
+   The VM (c01vm2/VM.v) has scope frames {id, offset, pc, saveindex, outerindex}, env.index walking the outer
+   chain, opscope/opret with popscope's `free` test (stated at list level with a ghost push counter, see the
+   header of VM.v; coq/vm/StackProofs.v Stack_refines is the array-level refinement), env.offset and the
+   growth of env.values, oppushpc / opcallpc with Next's locals (callpc, index).
+   The denotation enumerates the right operand in the outer loop, as the real code does.
+   Statement: as C01vm_compile_raw_correct, for the code before the peephole pass. *)
+Theorem C01vm_closures_compile_raw_correct :
+  forall (nt : c01vm2.Code.natives) (q : c01vm2.Syntax.query) (code : list c01vm2.Code.instr),
+  c01vm2.Compile.compile_raw q = Some code ->
+  forall v : c01vm2.Syntax.jv, exists fuel : nat,
+    c01vm2.Correct.run_is (c01vm2.Den.den nt q [] v) (c01vm2.VM.run nt code fuel (c01vm2.VM.init code v)).
+Proof. exact c01vm2.Correct.compile_raw_correct. Qed.
+Print Assumptions C01vm_closures_compile_raw_correct.
+
+(* the per-construct statement in the frame model: for every scope chain whose top frame has the scope id the
+   query is compiled in, every code position, stack, pending forks, offset and store *)
+Corollary C01vm_closures_segment_correct : forall nt code q, c01vm2.Lemmas.Impl nt code q.
+Proof. exact c01vm2.Correct.impl_all. Qed.
+
+(* non-vacuity: generators in both operands and a nested operand that needs a frame with a variable:
+   ((1,2) + (10,20)) , ((. + 1) + 100)  on 5  gives 11 12 21 22 106 (the right operand in the outer loop) *)
+Example C01vm_closures_nonvacuous :
+  let q := c01vm2.Syntax.QComma
+             (c01vm2.Syntax.QBinop c01vm2.Syntax.OAdd
+                (c01vm2.Syntax.QComma (c01vm2.Syntax.QConst (c01vm2.Syntax.VNum 1)) (c01vm2.Syntax.QConst (c01vm2.Syntax.VNum 2)))
+                (c01vm2.Syntax.QComma (c01vm2.Syntax.QConst (c01vm2.Syntax.VNum 10)) (c01vm2.Syntax.QConst (c01vm2.Syntax.VNum 20))))
+             (c01vm2.Syntax.QBinop c01vm2.Syntax.OAdd
+                (c01vm2.Syntax.QBinop c01vm2.Syntax.OAdd c01vm2.Syntax.QId (c01vm2.Syntax.QConst (c01vm2.Syntax.VNum 1)))
+                (c01vm2.Syntax.QConst (c01vm2.Syntax.VNum 100))) in
+  let v := c01vm2.Syntax.VNum 5 in
+  option_map (fun c => fst (c01vm2.VM.run c01vm2.Natives.cnat c 400 (c01vm2.VM.init c v))) (c01vm2.Compile.compile_raw q)
+    = Some (map c01vm2.Syntax.VNum [11; 12; 21; 22; 106])%Z /\
+  fst (c01vm2.Den.den c01vm2.Natives.cnat q [] v) = map c01vm2.Syntax.VNum [11; 12; 21; 22; 106]%Z.
 Proof. vm_compute. split; reflexivity. Qed.
